@@ -56,7 +56,8 @@ def build():
 
 def measure(lines, jobs=4):
     """-> None (not measurable) or dict(total, selected, never=[(index, opcode, pattern, replacement)], counts={index: n})"""
-    exe = build()
+    with vlib.Lock('c02-patcov-build'):
+        exe = build()
     if exe is None:
         return None
     rows = X.rows(X.preprocess(vlib.REPO))
